@@ -1421,3 +1421,7 @@ mod tests {
         Ok(())
     }
 }
+
+#[cfg(kani)]
+#[path = "/verif/harness/bcf/samples_values.rs"]
+mod verif_kani;
